@@ -201,6 +201,34 @@ def abort_table(mod, clsname, kind):
     return out
 
 
+def close_table(mod, clsname, kind):
+    """what `await proto.close(force_after)` calls on the asyncio transport (with the closed
+    event already set, so that the wait returns at once), closing or not; and the truth table
+    of is_closing() over (closed event set, asyncio transport closing)"""
+    calls, closing_tab = [], []
+    loop = asyncio.new_event_loop()
+    asyncio.set_event_loop(loop)
+    try:
+        for closing in (False, True):
+            proto = getattr(mod, clsname)(lambda t: None, _Framer(), kind)
+            stub = _Stub(closing)
+            proto._asyncio_transport = stub
+            proto._closed_event.set()
+            loop.run_until_complete(proto.close(1000))
+            calls.append(list(stub.calls))
+        for ev_set in (False, True):
+            for closing in (False, True):
+                proto = getattr(mod, clsname)(lambda t: None, _Framer(), kind)
+                proto._asyncio_transport = _Stub(closing)
+                if ev_set:
+                    proto._closed_event.set()
+                closing_tab.append(bool(proto.is_closing()))
+    finally:
+        asyncio.set_event_loop(None)
+        loop.close()
+    return calls, closing_tab
+
+
 def extract(repo):
     rs = common.fresh_import(repo, 'aiorpcx.rawsocket')
     us = common.fresh_import(repo, 'aiorpcx.unixsocket')
@@ -218,6 +246,8 @@ def extract(repo):
         'send_wraps_write': wraps, 'send_aborts_unconditionally': aborts,
         'abort_rs': abort_table(rs, 'RSTransport', kind),
         'abort_us': abort_table(us, 'USTransport', kind),
+        'close_rs': close_table(rs, 'RSTransport', kind),
+        'close_us': close_table(us, 'USTransport', kind),
         'write_loops_rs': write_shape(common.parse(repo, 'aiorpcx/rawsocket.py'), 'RSTransport'),
         'write_loops_us': write_shape(common.parse(repo, 'aiorpcx/unixsocket.py'), 'USTransport'),
         'max_send_delay': float(sess.SessionBase.max_send_delay),
@@ -278,6 +308,11 @@ def render(f):
         '/-- `await transport.abort()` calls exactly `abort()` on the asyncio transport, whether\n'
         '    or not it is already closing (both transports) -/\n'
         f'def abortAborts : Bool := {b(f["abort_rs"] == [["abort"], ["abort"]] and f["abort_us"] == [["abort"], ["abort"]])}\n'
+        '/-- `await transport.close(force_after)` first calls exactly `close()` on the asyncio\n'
+        '    transport (both transports, closing or not) -/\n'
+        f'def closeCloses : Bool := {b(all(c[0] == [["close"], ["close"]] for c in (f["close_rs"], f["close_us"])))}\n'
+        '/-- `is_closing()` = closed event set OR asyncio transport closing (both transports) -/\n'
+        f'def isClosingIsOr : Bool := {b(all(c[1] == [False, True, True, True] for c in (f["close_rs"], f["close_us"])))}\n'
         '/-- SessionBase.max_send_delay, in milliseconds -/\n'
         f'def maxSendDelayMs : Int := {int(round(md * 1000))}\n'
         'end Aiorpcx.Facts.C15\n')
